@@ -492,9 +492,36 @@ def align_variable_names_with_convention(
         for node, substitutes in renamings.items()
         if len(substitutes) == 1 and blacklisted_names.isdisjoint(substitutes)
     }
+
+    # Names are only renamed where they are assigned, defined or loaded. If a name also occurs
+    # somewhere else, renaming the rest would separate the occurrences from each other.
+    names_used_elsewhere = {
+        *(name for node in core.walk(ast_tree, (ast.Global, ast.Nonlocal)) for name in node.names),
+        *(node.id for node in core.walk(ast_tree, ast.Name(ctx=ast.Del))),
+        *(node.name for node in core.walk(ast_tree, ast.ExceptHandler)),
+        *(node.attr for node in core.walk(ast_tree, ast.Attribute)),
+        *(node.arg for node in core.walk(ast_tree, ast.keyword)),
+        *(node.target.id for node in core.walk(ast_tree, ast.NamedExpr)),
+    }
+
+    def _old_name(node: ast.AST) -> str:
+        return node.id if isinstance(node, ast.Name) else node.name
+
+    renamings = {
+        node: substitute
+        for node, substitute in renamings.items()
+        if _old_name(node) not in names_used_elsewhere
+    }
     substitute_node_renamings = collections.defaultdict(set)
     for node, substitute in renamings.items():
         substitute_node_renamings[substitute].add(node)
+
+    # Two different names that get the same new name would become one name
+    substitute_node_renamings = {
+        substitute: nodes
+        for substitute, nodes in substitute_node_renamings.items()
+        if len({_old_name(node) for node in nodes}) == 1
+    }
 
     transaction = 0
     for substitute, nodes in substitute_node_renamings.items():
